@@ -76,7 +76,36 @@ fn judge<'a, T: DiffableStr + ?Sized + 'a>(d: &'a TextDiff<'a, 'a, 'a, T>, old: 
     Ok(())
 }
 
+/// both texts are views into one buffer (1 case in 8 of the random stage)
+fn check_alias(c: &TextCase, obs: &mut Obs) -> Verdict {
+    let cfg = config(c.alg);
+    let (ro, rn) = alias_views(c);
+    let buf = &c.old.0;
+    let r = if c.old.as_str().is_none() || c.bytes {
+        guard(|| {
+            let d = diff_bytes(&cfg, c.tok, &buf[ro.clone()], &buf[rn.clone()]);
+            judge(&d, &buf[ro.clone()], &buf[rn.clone()], obs)
+        })
+    } else {
+        let s = c.old.as_str().unwrap();
+        guard(|| {
+            let d = diff_str(&cfg, c.tok, &s[ro.clone()], &s[rn.clone()]);
+            judge(&d, &buf[ro.clone()], &buf[rn.clone()], obs)
+        })
+    };
+    obs.class("old and new are views into one buffer");
+    let what = format!("{} {} views {:?} and {:?} of one buffer {:?}", alg_name(c.alg), TOKENIZERS[(c.tok % 5) as usize], ro, rn, c.old);
+    match r {
+        Ok(Ok(())) => Verdict::Pass,
+        Ok(Err(m)) => Verdict::Fail(format!("{}: {}", what, m)),
+        Err(p) => Verdict::Fail(format!("{}: {}", what, p)),
+    }
+}
+
 pub fn check_case(c: &TextCase, obs: &mut Obs) -> Verdict {
+    if c.opt % 8 == 7 {
+        return check_alias(c, obs);
+    }
     let cfg = config(c.alg);
     let r = if c.use_bytes() {
         guard(|| {
@@ -131,7 +160,7 @@ impl Prop for C04 {
     type Case = TextCase;
     const ID: &'static str = "C04";
     fn rule() -> String {
-        "cases = (old text, new text, tokenizer in {lines, words, chars, unicode words, graphemes}, algorithm, str | [u8]); texts are concatenations of atoms (ASCII words, whitespace incl. NBSP/U+2028/U+3000/U+0085, LF/CR/CRLF/LFCR, combining marks, ZWJ and flag emoji, NUL/control, diff-looking fragments; for [u8] additionally 11 invalid UTF-8 fragments), new = independent or mutate(old) at atom level; sizes mostly <= 12 atoms, tail straddling 100 tokens; plus line-structured texts; plus an enumeration of all pairs of strings of <= 3 atoms over a 7-atom alphabet with a rotating tokenizer/algorithm. Oracle: concatenated values of non-Insert changes == old bytes, of non-Delete changes == new bytes; Equal has both indices, Delete only old, Insert only new; indices count 0,1,2,... per side; same through per-op iteration. Non-trivial = texts differ and the diff has at least one Equal and one change; distinct = distinct serialized case.".into()
+        "cases = (old text, new text, tokenizer in {lines, words, chars, unicode words, graphemes}, algorithm, str | [u8]); texts are concatenations of atoms (ASCII words, whitespace incl. NBSP/U+2028/U+3000/U+0085, LF/CR/CRLF/LFCR, combining marks, ZWJ and flag emoji, NUL/control, diff-looking fragments; for [u8] additionally 11 invalid UTF-8 fragments), new = independent or mutate(old) at atom level; sizes mostly <= 12 atoms, tail straddling 100 tokens; plus line-structured texts; plus an enumeration of all pairs of strings of <= 3 atoms over a 7-atom alphabet with a rotating tokenizer/algorithm. Oracle: concatenated values of non-Insert changes == old bytes, of non-Delete changes == new bytes; Equal has both indices, Delete only old, Insert only new; indices count 0,1,2,... per side; same through per-op iteration. 1 random case in 8 instead diffs two VIEWS INTO ONE BUFFER (truncated copy, tail view, adjacent views: texts that share memory). Non-trivial = texts differ and the diff has at least one Equal and one change; distinct = distinct serialized case.".into()
     }
     fn assumptions() -> Vec<String> {
         vec!["str mode is used only for valid UTF-8 (by construction)".into()]
